@@ -142,7 +142,11 @@ fn run_v<V: VringT<GM<()>> + Clone + Send + Sync + 'static>(sim: &Sim, _cfg: &Ru
                     } else {
                         let r = t.pick(&known).clone();
                         let size = if t.chance(1, 4) { r.size + PAGE } else { r.size };
-                        ops.push(Op::Rem { gpa: r.gpa, size, uva: r.uva });
+                        // now and then the request names the region by guest address and size
+                        // but carries another user address (whether that still identifies the
+                        // region is not fixed by the property: the reference follows the outcome)
+                        let uva = if t.chance(1, 4) { r.uva.wrapping_add((1 + t.draw(8)) * PAGE) } else { r.uva };
+                        ops.push(Op::Rem { gpa: r.gpa, size, uva });
                     }
                 }
                 _ => {
@@ -245,6 +249,8 @@ fn run_v<V: VringT<GM<()>> + Clone + Send + Sync + 'static>(sim: &Sim, _cfg: &Ru
                     mmap_handle: -1,
                 };
                 let res = vmm.fe.remove_mem_region(&info).map_err(|e| format!("{e:?}"));
+                let other_uva = model.regs.iter().any(|r| r.gpa == *gpa && r.size == *size && r.uva != *uva);
+                let ok = if other_uva { res.is_ok() } else { ok };
                 if ok {
                     model.regs.retain(|r| r.gpa != *gpa);
                 }
